@@ -72,6 +72,10 @@ def cases(draw):
     if code in ("G0", "G1", "G92", "G28"):
         letters += "SP"       # letters the handler must ignore
     ws = draw(st.lists(word(letters), min_size=0, max_size=7))
+    if code in ("G0", "G1", "G2", "G3") and draw(st.integers(0, 3)) == 0:
+        # every axis letter once (in any order), then repetitions: the last value must win wherever it stands
+        head = [draw(word(l)) for l in draw(st.permutations("XYZEF"))]
+        ws = head + draw(st.lists(word("XYZEF"), min_size=1, max_size=4))
     for w in ws:
         if w["l"] in "IJ" and w["v"] is not None and abs(w["v"]) > 500:
             w["t"], w["v"] = "2.5", 2.5      # arc radii beyond 500 are outside the documented domain (and cost one point per unit)
